@@ -25,7 +25,7 @@ impl Deserialize for Certificates {
                 cbor_event::Len::Len(n) => arr.len() < n as usize,
                 cbor_event::Len::Indefinite => true,
             } {
-                if is_break_tag(raw, "Certificates")? {
+                if is_break_tag(raw, len, "Certificates")? {
                     break;
                 }
                 arr.push(Certificate::deserialize(raw)?);
